@@ -179,6 +179,9 @@ func (r *Run) Finish() {
 		return
 	}
 	if _, ok := r.Coverage["samples"]; !ok {
+		if r.samples == nil {
+			r.samples = []interface{}{} // a run that was cut short before its first sample still writes a list
+		}
 		r.Coverage["samples"] = r.samples
 	}
 	if _, ok := r.Coverage["distinct_nontrivial"]; !ok {
